@@ -163,9 +163,11 @@ def run(c):
         for ln in res["lines"][1:200000:20011]:
             c.sample(ln, limit=8)
         c.judge(res, "C API call differs from the C++ run-time interface / parameter did not arrive", sigfn=sigfn, stage="replay")
-    if begins != nseq or ends != nseq:
+    crashed = any(v[2].get("clause") == "crash" for v in c.violations) or any(
+        h[1].get("match", {}).get("clause") == "crash" for h in c.known_hits.values())
+    if not crashed and (begins != nseq or ends != nseq):
         raise vcheck.InfraError("replayed %d sequences (End events: %d) but TLC exported %d" % (begins, ends, nseq))
-    c.note("%d sequences replayed = %d exported by TLC; %d create calls" % (begins, nseq, creates))
+    c.note("%d sequences replayed, %d exported by TLC; %d create calls" % (begins, nseq, creates))
 
     # ---- judge the AddressSanitizer replays
     adone = 0
@@ -185,6 +187,7 @@ def run(c):
         m = re.search(r"ERROR: (AddressSanitizer|LeakSanitizer): ([^\n]*)", err)
         kind = (m.group(2).split(" on ")[0].strip() if m else "crash rc=%s" % rc)
         acc = re.search(r"^(READ|WRITE) of size \d+", err, re.M)
+        cur = re.search(r"C20-CURRENT-CALL seq=(\d+) step=(\d+) f=(\S+)", err)
         try:
             lastrec = json.loads(last)
         except Exception:
@@ -192,10 +195,13 @@ def run(c):
         if rc == ASAN_RC or rc < 0 or rc in (3, 134, 136, 139):
             leak = "leak" in kind.lower()
             sig = {"stage": "asan", "clause": "create-destroy-matched" if leak else "no-out-of-bounds",
-                   "kind": kind, "access": acc.group(1) if acc else "", "after_call": lastrec.get("f", "")}
+                   "kind": kind, "access": acc.group(1) if acc else "", "call": cur.group(3) if cur else ""}
             what = ("memory leaked although every created handle was destroyed (%s)" % kind) if leak else \
                    ("memory error on a valid call sequence with exact-size arrays: %s %s" % (kind, acc.group(0) if acc else ""))
-            c.violation(what, {"part": k, "rc": rc, "last_event_before": lastrec, "asan_report": err[:6000],
+            if cur:
+                what += " in %s" % cur.group(3)
+            c.violation(what, {"part": k, "rc": rc, "call_in_progress": cur.group(0) if cur else None,
+                               "last_completed_event": lastrec, "asan_report": err[:6000],
                                "cmd": [asan, "seqs-%d.txt" % k]}, sig)
         else:
             raise vcheck.InfraError("ASan replay rc=%s\n%s" % (rc, err[-3000:]))
